@@ -5,8 +5,8 @@
 From Coq Require Import List ZArith NArith Bool Zpow_facts.
 From Verif Require Import Harness.
 From VerifGen Require Import C03Tables_gen.
-From VerifModel Require Import C23 C03.
-From VerifProof Require Import C23Proofs C03Proofs C03PssProofs.
+From VerifModel Require Import C23 C03 C03Run C03RunFast.
+From VerifProof Require Import C23Proofs C03Proofs C03PssProofs C03FastProofs.
 Import ListNotations.
 Open Scope N_scope.
 
@@ -142,3 +142,9 @@ Theorem C03_check_sig_unfixed_refuted :
             10 (KRSA, 1) 7 (Some (PadPKCS1, 1, 5, 7)) = RMismatch.
 Proof. exact check_sig_unfixed_accepts_mismatch. Qed.
 Print Assumptions C03_check_sig_unfixed_refuted.
+
+(* ---- what the correspondence run evaluates for dsa.Verify is the model's own check ---- *)
+Theorem C03_dsa_fast_check_is_model_check :
+  forall c, C03RunFast.check_dsacase c = C03.check_dsacase Zpow_mod c.
+Proof. exact dsa_fast_check_is_model_check. Qed.
+Print Assumptions C03_dsa_fast_check_is_model_check.
